@@ -133,14 +133,18 @@ Fixpoint lex_le (a b : bytes) : bool :=
   end.
 (* truncate_binary: the first n bytes *)
 Definition trunc_min (n : nat) (s : bytes) : bytes := firstn n s.
-(* increment: add one from the right with carry; None when every byte is 0xFF.  Works on the reversed list. *)
-Fixpoint incr_rev (r : bytes) : option bytes :=
-  match r with
+(* increment: add one from the right with carry (0xFF overflows to 0x00 and the carry moves left);
+   None when every byte is 0xFF.  Written front to back: the rightmost byte below 0xFF is incremented
+   and everything after it becomes 0x00. *)
+Fixpoint increment (s : bytes) : option bytes :=
+  match s with
   | [] => None
-  | b :: tl => if (b <? 255)%N then Some ((b + 1)%N :: tl)
-               else match incr_rev tl with Some tl' => Some (0%N :: tl') | None => None end
+  | b :: tl =>
+      match increment tl with
+      | Some tl' => Some (b :: tl')
+      | None => if (b <? 255)%N then Some ((b + 1)%N :: map (fun _ => 0%N) tl) else None
+      end
   end.
-Definition increment (s : bytes) : option bytes := option_map (@rev N) (incr_rev (rev s)).
 (* the max bound of a value that had to be truncated: truncate, then increment (None = no bound) *)
 Definition trunc_max (n : nat) (s : bytes) : option bytes :=
   if (n <? length s)%nat then increment (firstn n s) else Some s.
